@@ -11,9 +11,10 @@
   Every equation is a linear form (lhs − rhs) in the unknowns (node voltages resp. mesh
   currents) with coefficients in the carrier `K`, i.e. the printed equation at a sample point.
 
-  The mesh generator keeps one switch `pe`: `pe = false` mirrors the code as it is in /repo (finding
-  C15-c, still open: parallel components are identified by node pair), `pe = true` the code after the
-  proposed patch.  The other findings of this property (F13, C15-b, C15-d, C15-g, C15-h) are fixed in
+  The mesh generator keeps one switch `pe`: `pe = true` mirrors the repaired code (fix-C15-c: a component
+  is identified by the graph edge that holds it), `pe = false` the code before that fix (parallel
+  components identified by node pair), kept executable for the correspondence on a source tree without
+  the fix.  The other findings of this property (F13, C15-b, C15-d, C15-g, C15-h) are fixed in
   /repo and the model mirrors the fixed code only.
   No Mathlib import.
 -/
@@ -215,7 +216,7 @@ structure MeshForm (K : Type) where
 def MeshForm.eval (im : Nat → K) (f : MeshForm K) : K :=
   lsum (f.coeffs.map (fun p => p.2 * im p.1)) + f.const
 
-/-- `_add_mesh_currents`, code as is: scan each loop for the first consecutive pair that equals
+/-- `_add_mesh_currents` before fix-C15-c: scan each loop for the first consecutive pair that equals
     the component's node names (−I_n) or their reverse (+I_n); signed list of loop indices -/
 def accNames (loops : List (List GNode)) (n0 n1 : Nat) : List (Nat × Bool) :=
   (List.range loops.length).zip loops |>.filterMap (fun (n, loop) =>
@@ -224,7 +225,7 @@ def accNames (loops : List (List GNode)) (n0 n1 : Nat) : List (Nat × Bool) :=
     | some pq => some (n, pq.1 == .real n0 && pq.2 == .real n1)     -- true: forward, −I_n
     | none => none)
 
-/-- `_add_mesh_currents` with the proposed patch for C15-c: the loop passes through the component iff one of its
+/-- `_add_mesh_currents` (fix-C15-c): the loop passes through the component iff one of its
     consecutive pairs is joined by THIS component's edge; forward iff the pair starts at the
     component's first node -/
 def accEdge (g : List (Edge K)) (loops : List (List GNode)) (idx n0 : Nat) : List (Nat × Bool) :=
@@ -242,8 +243,7 @@ def accCoeffs (acc : List (Nat × Bool)) : List (Nat × K) :=
 def scaleCoeffs (z : K) (l : List (Nat × K)) : List (Nat × K) := l.map (fun p => (p.1, z * p.2))
 
 /-- contribution of the pair (a, b) of loop number `m` to its KVL sum (`_process_loop` body).
-    `pe` -- components are identified by their graph edge (proposed patch for C15-c), else by node
-    names (code as it is).  The value is `voltage_equation(−current)`. -/
+    `pe` -- components are identified by their graph edge (fix-C15-c), else by node names (before the fix).  The value is `voltage_equation(−current)`. -/
 def meshTerm (pe : Bool) (kind : Kind) (s : K) (g : List (Edge K)) (loops : List (List GNode))
     (ab : GNode × GNode) : Option (MeshForm K) :=
   match component g ab.1 ab.2 with
